@@ -372,6 +372,18 @@ def handle (j : Json) : Json :=
   let obsErr := let e := jstr obsJ "err"; if e == "" then "none" else e
   let obsExit := jnat obsJ "exit"
   let budget := if jnat j "budget" = 0 then 200000 else jnat j "budget"
+  if jbool j "dangling" then
+    -- `executed=` names a task that does not exist: `TaskControl._check_dep_names` raises InvalidTask while the
+    -- command is set up ("Task dependency '…' does not exist"): ERROR exit 3, nothing runs, no creator is evaluated
+    Json.mkObj [
+      ("filter", Json.str "invalid"),
+      ("accept", boolJ (obsErr == "invalid" && obsAll.isEmpty && obsExit == 3)),
+      ("model", Json.mkObj [("events", mkArr []), ("err", Json.str "invalid"), ("exit", toJson (3 : Nat))]),
+      ("wf", Json.mkObj [("trig", boolJ true)]),
+      ("prop", Json.mkObj [("once", boolJ (onceOK obsAll.reverse)), ("after", boolJ obsAll.isEmpty), ("obey", boolJ obsAll.isEmpty),
+                           ("utd", boolJ true), ("target", boolJ true), ("target_why", Json.str ""),
+                           ("evaluated", boolJ true), ("evaluated_why", Json.str "")]),
+      ("visited", toJson (0 : Nat))] else
   match process c.pre c.sel with
   | .inl w =>
     -- `_filter_tasks` raised InvalidCommand(not_found): nothing runs
